@@ -38,6 +38,8 @@ enum Ev {
     Consume(u64),
     /// an orphan notice for a request id the map never saw (caller gone before enqueue)
     StrayNotice,
+    /// virtual time passes: every stream id orphaned so far is now orphaned for longer than the driver's age threshold
+    Clock,
     /// the server answers the background request on this stream (pre-filled scenarios)
     RespondBg(i16),
     /// a frame on a stream the server holds no request on; the router then breaks the connection
@@ -55,6 +57,7 @@ impl Ev {
             Ev::Notice(r) => format!("notice:{r}"),
             Ev::Consume(r) => format!("consume:{r}"),
             Ev::StrayNotice => "stray-notice".into(),
+            Ev::Clock => "clock+1.1s".into(),
             Ev::RespondBg(s) => format!("respond-bg:{s}"),
             Ev::Unsolicited(s) => format!("unsolicited:{s}"),
             Ev::Break => "break".into(),
@@ -70,6 +73,7 @@ impl Ev {
             "notice" => Ev::Notice(b.parse().ok()?),
             "consume" => Ev::Consume(b.parse().ok()?),
             "stray-notice" => Ev::StrayNotice,
+            "clock+1.1s" => Ev::Clock,
             "respond-bg" => Ev::RespondBg(b.parse().ok()?),
             "unsolicited" => Ev::Unsolicited(b.parse().ok()?),
             "break" => Ev::Break,
@@ -101,6 +105,8 @@ struct Req {
     stream: Option<i16>,
     /// the notice was delivered while the request was written and unanswered
     orphaned: bool,
+    /// ... and that was more than the age threshold ago
+    orphan_old: bool,
     rx: Option<hook::HandlerRx>,
 }
 
@@ -122,6 +128,11 @@ struct Obj {
     init_error: Option<String>,
     /// stream id -> index of the pre-filled background request written on it (-1: none)
     bg_index: Vec<i32>,
+    /// paused tokio clock: `OrphanageTracker` stamps orphans with `tokio::time::Instant::now()`, which follows this
+    /// runtime's virtual time whenever the runtime is entered
+    rt: std::rc::Rc<tokio::runtime::Runtime>,
+    /// the map's own `old_orphans_count()` after the last transition (kept in the canonical form)
+    old_orphans: usize,
 }
 
 struct M {
@@ -137,6 +148,9 @@ struct M {
     lean: bool,
     replays: AtomicU64,
     refusals: AtomicU64,
+    clock_advances: AtomicU64,
+    max_old_orphans: AtomicU64,
+    old_count_disagreements: AtomicU64,
     spurious_refusals: AtomicU64,
     nontrivial: std::sync::Mutex<std::collections::HashSet<u64>>,
     orphaned_lookups: AtomicU64,
@@ -166,6 +180,9 @@ impl M {
             bg_budget,
             replays: AtomicU64::new(0),
             refusals: AtomicU64::new(0),
+            clock_advances: AtomicU64::new(0),
+            max_old_orphans: AtomicU64::new(0),
+            old_count_disagreements: AtomicU64::new(0),
             spurious_refusals: AtomicU64::new(0),
             nontrivial: Default::default(),
             orphaned_lookups: AtomicU64::new(0),
@@ -216,6 +233,8 @@ impl Model for M {
 
     fn init(&self) -> Obj {
         self.replays.fetch_add(1, Ordering::Relaxed);
+        let rt = std::rc::Rc::new(tokio::runtime::Builder::new_current_thread().enable_time().start_paused(true).build().expect("runtime"));
+        let _clock = rt.enter();
         let mut map = hook::new_map();
         let mut owed = vec![false; 32768];
         let mut owed_count = 0;
@@ -254,7 +273,7 @@ impl Model for M {
             None
         };
         let snap = Some(map.snapshot(self.listing(), BG_BASE));
-        Obj { map: Some(map), bg, bg_answered: BTreeSet::new(), reqs: Vec::new(), next_rid: 0, owed, owed_count, broken: false, steps_nontrivial: false, snap, init_error, bg_index }
+        Obj { map: Some(map), bg, bg_answered: BTreeSet::new(), reqs: Vec::new(), next_rid: 0, owed, owed_count, broken: false, steps_nontrivial: false, snap, init_error, bg_index, rt: rt.clone(), old_orphans: 0 }
     }
 
     fn enabled(&self, o: &Obj) -> Vec<Ev> {
@@ -281,6 +300,9 @@ impl Model for M {
                 Caller::Cancelled => v.push(Ev::Notice(q.rid)),
                 Caller::Noticed => {}
             }
+        }
+        if o.reqs.iter().any(|q| q.orphaned && q.phase == Phase::Written && !q.orphan_old) {
+            v.push(Ev::Clock);
         }
         if self.prefill == 0 {
             // (pre-filled scenarios: the stray notice is covered by the empty scenario; each transition there costs a 32768-allocate rebuild)
@@ -313,12 +335,14 @@ impl Model for M {
         if let Some(e) = &o.init_error {
             return Err(e.clone());
         }
+        let rt = o.rt.clone();
+        let _clock = rt.enter();
         let idx = |o: &Obj, rid: u64| o.reqs.iter().position(|q| q.rid == rid).ok_or_else(|| format!("harness|event {ev:?} names a request that is not alive"));
         match ev {
             Ev::Submit => {
                 let rid = o.next_rid;
                 o.next_rid += 1;
-                o.reqs.push(Req { rid, phase: Phase::Queued, caller: Caller::Live, stream: None, orphaned: false, rx: None });
+                o.reqs.push(Req { rid, phase: Phase::Queued, caller: Caller::Live, stream: None, orphaned: false, orphan_old: false, rx: None });
             }
             Ev::Write(rid) => {
                 let i = idx(o, *rid)?;
@@ -439,6 +463,15 @@ impl Model for M {
                 o.reqs[i].caller = Caller::Noticed; // notifier disabled: nothing more will come from this caller
                 o.reqs[i].rx = None;
             }
+            Ev::Clock => {
+                rt.block_on(async { tokio::time::advance(hook::orphan_limits().1 + std::time::Duration::from_millis(100)).await });
+                self.clock_advances.fetch_add(1, Ordering::Relaxed);
+                for q in o.reqs.iter_mut() {
+                    if q.orphaned && q.phase == Phase::Written {
+                        q.orphan_old = true;
+                    }
+                }
+            }
             Ev::StrayNotice => {
                 let before = self.snapshot_fg(o);
                 o.map.as_mut().unwrap().orphan(1 << 50);
@@ -500,6 +533,12 @@ impl Model for M {
                 !(over && !mentioned)
             });
             o.snap = Some(snap);
+            o.old_orphans = o.map.as_ref().unwrap().old_orphans_count();
+            self.max_old_orphans.fetch_max(o.old_orphans as u64, Ordering::Relaxed);
+            let model_old = o.reqs.iter().filter(|q| q.orphaned && q.orphan_old && q.phase == Phase::Written).count();
+            if model_old != o.old_orphans {
+                self.old_count_disagreements.fetch_add(1, Ordering::Relaxed);
+            }
         } else {
             o.snap = None;
         }
@@ -559,7 +598,7 @@ impl Model for M {
         let mut rs: Vec<&Req> = o.reqs.iter().collect();
         rs.sort_by_key(|q| q.rid);
         for q in rs {
-            s.push_str(&format!("{}:{:?}:{:?}:{:?}:{};", rank(q.rid), q.phase, q.caller, q.stream, q.orphaned));
+            s.push_str(&format!("{}:{:?}:{:?}:{:?}:{}:{};", rank(q.rid), q.phase, q.caller, q.stream, q.orphaned, q.orphan_old));
         }
         let snap = self.snapshot_fg(o).unwrap();
         s.push_str(&format!("|n={}|", snap.allocated_count));
@@ -575,7 +614,7 @@ impl Model for M {
                 s.push_str(&format!("|a={:?}", snap.allocated));
             }
         }
-        s.push_str(&format!("|o={:?}|t={:?}", snap.orphans, snap.orphans_by_time));
+        s.push_str(&format!("|o={:?}|t={:?}|old={}", snap.orphans, snap.orphans_by_time, o.old_orphans));
         if o.steps_nontrivial {
             self.nontrivial.lock().unwrap().insert(vcore::fnv64(s.as_bytes()));
         }
@@ -652,7 +691,7 @@ fn scenarios(thorough: bool) -> Vec<Scenario> {
     let mut v = vec![Scenario { lean: false, with_break: true, name: "empty".into(), k: if thorough { 4 } else { 3 }, prefill: 0, bg_candidates: vec![], bg_budget: 0 }];
     // more than 64 / more than 128 / 200 ids owed at once (first, second and third bitmap block full), the peer then
     // answers ids inside block 0 and at the block borders: every id handed out afterwards must not be owed
-    for p in [65usize, 129, 200] {
+    for p in if thorough { vec![65usize, 129, 200] } else { vec![65usize, 129] } {
         v.push(Scenario { lean: !thorough, with_break: thorough, name: format!("prefill-{p}"), k: 2, prefill: p, bg_candidates: vec![0, 1, 63, 64, 128], bg_budget: 2 });
     }
     for j in 0..=2usize {
@@ -801,6 +840,9 @@ fn main() {
         r.nontrivial(m.nontrivial.lock().unwrap().len() as u64);
         r.counters.add("refusals_while_ids_free(not a C02 violation)", m.spurious_refusals.load(Ordering::Relaxed));
         r.counters.add("allocate_refusals", m.refusals.load(Ordering::Relaxed));
+        r.counters.add("clock_advances_past_orphan_age", m.clock_advances.load(Ordering::Relaxed));
+        r.counters.max("max_old_orphans_count_read_back", m.max_old_orphans.load(Ordering::Relaxed));
+        r.counters.add("old_orphan_count_differs_from_model(not a C02 violation)", m.old_count_disagreements.load(Ordering::Relaxed));
         r.counters.add("lookups_orphaned", m.orphaned_lookups.load(Ordering::Relaxed));
         r.counters.add("lookups_handler", m.handler_lookups.load(Ordering::Relaxed));
         r.counters.add("responses_to_dead_receivers", m.dead_receiver_sends.load(Ordering::Relaxed));
@@ -837,7 +879,7 @@ fn main() {
     r.note("scenarios", json!(per_scenario));
     r.note("fixpoint_all_scenarios", json!(all_fixpoint));
     r.set_exhaustive(all_fixpoint);
-    r.set_rule("E-BFS to a fixpoint over environment events {submit, write(allocate), respond(lookup + send through the returned handler), cancel, deliver-notice(orphan), consume, stray notice, answer a pre-filled background request, unsolicited frame(lookup)+break, break(into_handlers)} on the real ResponseHandlerMap; at most K requests alive at once; canonical form = per-request (phase, caller, stream, orphaned) with request ids relabelled by rank + the map's four collections read back through the hook (orphaning Instants dropped: they feed only old_orphans_count, which no event of this alphabet reads). transitions = evaluations. distinct_nontrivial = distinct states in which some stream has BOTH a response owed by the server and its caller's cancellation notice in flight. traces_validated_against_impl = event histories replayed step-checked on a fresh real map (BFS rebuilds every state from its history; thorough adds a full second run of the empty scenario with another thread count).");
+    r.set_rule("E-BFS to a fixpoint over environment events {submit, write(allocate), respond(lookup + send through the returned handler), cancel, deliver-notice(orphan), clock +1.1 s (virtual: all orphans so far become 'old'), consume, stray notice, answer a pre-filled background request, unsolicited frame(lookup)+break, break(into_handlers)} on the real ResponseHandlerMap; at most K requests alive at once; canonical form = per-request (phase, caller, stream, orphaned) with request ids relabelled by rank + the map's four collections read back through the hook (orphaning Instants as an 'old' bit per orphan plus the map's own old_orphans_count: the tracker's tokio clock is a paused runtime owned by the harness). transitions = evaluations. distinct_nontrivial = distinct states in which some stream has BOTH a response owed by the server and its caller's cancellation notice in flight. traces_validated_against_impl = event histories replayed step-checked on a fresh real map (BFS rebuilds every state from its history; thorough adds a full second run of the empty scenario with another thread count).");
     r.assume("request ids matter to the map only through equality (relabelling by rank is sound); OrphanageTracker timestamps are not part of the canonical form because none of the explored events reads them");
     r.assume("a spurious refusal (allocate fails while ids are free) or an id leak is not a C02 safety violation; a leak makes the space infinite and is reported as a machinery error, not a verdict");
     r_owned.finish();
